@@ -117,7 +117,7 @@ Proof.
     + destruct Hkind as [Hk | [Hs Ht]]; [congruence|]. rewrite Hs, Ht in *.
       apply code_at_head in Hc. simpl length. rewrite Nat.add_1_r. apply star_one.
       assert (Hg := gpos_nonneg x (fc_fvs fc) 0 ltac:(lia)).
-      eapply step_id_global with (i := Z.to_nat (gpos x (fc_fvs fc) 0)); [| exact Hgp | exact Hr].
+      eapply step_id_global with (i := Z.to_nat (gpos x (fc_fvs fc) 0)); [| exact Hgp | exact (proj2 Hr)].
       rewrite Z2Nat.id by lia. exact Hc.
 Qed.
 
@@ -418,6 +418,13 @@ Proof.
   apply In_mem_id_true in Hin. congruence.
 Qed.
 
+Lemma fvs_fd_not_self : forall fd y, In y (fvs_fd TL fd) -> N.eqb y (fd_name fd) = false.
+Proof.
+  intros fd y H. destruct (fvs_fd_shape fd) as (l & E). rewrite E in H. apply dedup_In in H.
+  destruct H as [H _]. apply filter_In in H. destruct H as [_ H]. unfold nonlocal in H.
+  apply andb_true_iff in H. destruct H as [_ H]. apply negb_true_iff in H. exact H.
+Qed.
+
 Lemma param_env_names : forall ps cs penv stk m pre,
   bind_params ps cs = Some penv -> Forall2 (maps m) cs stk ->
   forall x, mem_id x (param_names ps) = true ->
@@ -480,7 +487,8 @@ Proof.
     destruct (bind_params_not_param _ _ _ y Hb (fvs_fd_not_param fd y Hy)) as [Hn1 Hn2].
     exists c, a. split; [|split; [exact Hm|]].
     + rewrite lookup_app, Hn1. exact Hl.
-    + unfold resolves. rewrite Hn2. cbn [ctx_of fc_fvs].
+    + unfold resolves. rewrite Hn2. cbn [ctx_of fc_fvs fc_self]. split.
+      { destruct kd; cbn [self_is]; try reflexivity. exact (fvs_fd_not_self fd y Hy). }
       rewrite (gpos_nth _ i y 0 (fvs_fd_NoDup fd) Hi). simpl. rewrite Nat2Z.id. exact Ha.
 Qed.
 
